@@ -79,7 +79,7 @@ def futures_world(h, symbols=('BTC-USDT',), leverage=None, mode='isolated', with
     w = World()
     ctx = h.ctx
     L = leverage if leverage is not None else h.int(prefix + 'L', 1, 125)
-    fee = fee if fee is not None else h.real(prefix + 'fee', 0, Fraction(1, 100))
+    fee = fee if fee is not None else h.real(prefix + 'fee', Fraction(-1, 1000), Fraction(1, 100))      # a negative rate is a maker rebate
     ex = Obj(r.find('jesse.models.FuturesExchange.FuturesExchange'), name='exchange')
     ex.f.update(name='Sandbox', type='futures', fee_rate=fee, settlement_currency='USDT', futures_leverage=L,
                 futures_leverage_mode=mode, assets={}, temp_reduced_amount={}, available_assets={}, starting_assets={},
